@@ -16,6 +16,29 @@ fn garbage(rng: &mut Rng, len: usize) -> Vec<u8> {
         .collect()
 }
 
+/// A client that takes its TIME inside a frame (seconds to an hour between two parts of a payload, between header and payload,
+/// between frames), then goes on: every frame is still a frame.
+pub fn slow(out: &mut Out, inst: &str, with_death: bool) {
+    for flags in [0x10u8, 0x11, 0x00] {
+        for ms in [50u64, 4_900, 5_500, 31_000, 3_600_000] {
+            for cut in [10usize, 11, 13, 15] {
+                let motion = sess::frame(0x20, &[0x10, 1, 0, 0, 0x12, 0x34]);
+                let sf = session_frame(flags, "slow-client-name").bytes;
+                let mut tail = motion[cut..].to_vec();
+                for _ in 0..3 {
+                    tail.extend(sess::frame(0x20, &[0x00]));
+                }
+                // also a session frame delivered in two parts with time in between
+                let mut evs = vec![Ev::Bytes(sf[..14].to_vec()), Ev::Bytes(sf[14..].to_vec()), Ev::Bytes(motion[..cut].to_vec()), Ev::Bytes(tail)];
+                if with_death {
+                    evs.push(Ev::Close(Close::Eof));
+                }
+                sess::run_case_stalls(out, inst, "sess", &evs, &[(0, ms), (2, ms)]);
+            }
+        }
+    }
+}
+
 /// A client that stalls inside a frame while its session's signal subscription is overrun, then dies.
 pub fn stalled(out: &mut Out, inst: &str) {
     // a client that stalls INSIDE a frame (header and part of the payload, the rest later) while signals are published:
@@ -140,6 +163,7 @@ pub fn run(out: &mut Out, tier: &str, rng: &mut Rng) {
         out.count("type-sweep");
     }
     stalled(out, &inst);
+    slow(out, &inst, true);
     // mostly valid streams with a corrupted byte somewhere, and pure garbage
     let n = if thorough { 20_000 } else { 2_000 };
     for i in 0..n {
